@@ -76,6 +76,11 @@ type vc13Plan struct {
 
 	hits    map[string]int
 	release chan struct{}
+
+	// probe, if not nil, is called by handlers while a body is only partly
+	// delivered: stage is "mid" between two chunks, "hung" while a partial
+	// body hangs, "gaveup" after the client of a hanging body went away.
+	probe func(path, stage string)
 }
 
 // vc13Trigger describes an instant during a round: chunk number chunk of the
@@ -113,12 +118,16 @@ func vc13NewServer() (s *vc13Server) {
 func (s *vc13Server) URL() (u string) { return s.srv.URL }
 
 // setPlan installs the behaviour for the next round.
-func (s *vc13Server) setPlan(resps map[string]*vc13Resp, def *vc13Resp) {
+func (s *vc13Server) setPlan(resps map[string]*vc13Resp, def *vc13Resp, probe func(path, stage string)) {
 	s.mu.Lock()
 	defer s.mu.Unlock()
 
-	s.plan = &vc13Plan{resps: resps, def: def, hits: map[string]int{}, release: make(chan struct{})}
+	s.plan = &vc13Plan{resps: resps, def: def, hits: map[string]int{}, release: make(chan struct{}), probe: probe}
 }
+
+// vc13ProbeSettle gives the client a moment to consume what was flushed before
+// a probe looks at the files; it only affects what a probe can see.
+const vc13ProbeSettle = 300 * time.Microsecond
 
 // endRound releases every hanging handler of the current plan and returns the
 // number of requests per path.
@@ -227,7 +236,7 @@ func (s *vc13Server) ServeHTTP(w http.ResponseWriter, r *http.Request) {
 
 	switch resp.kind {
 	case vc13OKNew, vc13OKSame, vc13Oversize:
-		s.writeComplete(w, resp, ord)
+		s.writeComplete(w, r.URL.Path, p, resp, ord)
 	case vc13S404:
 		w.WriteHeader(http.StatusNotFound)
 		_, _ = w.Write(resp.body)
@@ -246,7 +255,14 @@ func (s *vc13Server) ServeHTTP(w http.ResponseWriter, r *http.Request) {
 		if f, ok := w.(http.Flusher); ok {
 			f.Flush()
 		}
+		if p.probe != nil {
+			time.Sleep(10 * vc13ProbeSettle)
+			p.probe(r.URL.Path, "hung")
+		}
 		wait()
+		if p.probe != nil {
+			p.probe(r.URL.Path, "gaveup")
+		}
 	case vc13ConnClose:
 		if c := vc13Hijack(w); c != nil {
 			_ = c.Close()
@@ -273,7 +289,7 @@ func (s *vc13Server) ServeHTTP(w http.ResponseWriter, r *http.Request) {
 
 // writeComplete sends the whole body of resp, optionally in chunks with
 // pauses.
-func (s *vc13Server) writeComplete(w http.ResponseWriter, resp *vc13Resp, ord int) {
+func (s *vc13Server) writeComplete(w http.ResponseWriter, path string, p *vc13Plan, resp *vc13Resp, ord int) {
 	s.mu.Lock()
 	s.inflight++
 	s.started++
@@ -307,6 +323,11 @@ func (s *vc13Server) writeComplete(w http.ResponseWriter, resp *vc13Resp, ord in
 		s.at(ord, i)
 
 		lo, hi := min(i*size, len(resp.body)), min((i+1)*size, len(resp.body))
+		if i > 0 && lo < len(resp.body) && p.probe != nil {
+			// A part of the body is still to be sent.
+			time.Sleep(vc13ProbeSettle)
+			p.probe(path, "mid")
+		}
 		if _, err := w.Write(resp.body[lo:hi]); err != nil {
 			return
 		}
